@@ -44,7 +44,8 @@ Print Assumptions C18_run_cases.
 
 (* Classification: on every input whose embedding relation is well founded and
    whose function declarations are safe for the mapper's syntactic inspections
-   (named parameters and receivers, bodies, accessor arities) a run ends in a
+   (named parameters and receivers, bodies, accessor arities) and whose files all
+   have a package clause, a run ends in a
    deliberate exit - never a Go panic, never an unbounded recursion - for every
    command line, directory state, map order and fault oracle... *)
 Theorem C18_always_a_deliberate_exit : forall sigma io i,
@@ -97,6 +98,11 @@ Print Assumptions C18_refuted_K_map_nil_body.
 Theorem C18_refuted_K_map_accessor_arity : fst (run id_order no_fault w_map_setter) = Panic PSetterNoParam.
 Proof. exact map_setter_panics. Qed.
 Print Assumptions C18_refuted_K_map_accessor_arity.
+
+Theorem C18_refuted_K_testfile_no_package_clause :
+  fst (run id_order no_fault w_no_clause) = Panic PTestFileNoPos /\ has_pkg_clauses (i_files w_no_clause) = false.
+Proof. exact no_clause_panics. Qed.
+Print Assumptions C18_refuted_K_testfile_no_package_clause.
 
 (* exit status 1 AFTER the output was written *)
 Theorem C18_refuted_K_clean_unreadable_after_write :
